@@ -105,6 +105,11 @@ def install(env, mods, pid=0, table=None, prf_stub=True, rand_stub=True, keytag=
         if ff:
             ff.PrimeFieldElement._mix_types = symx.IntShim
             env.shims.add('PrimeFieldElement._mix_types=IntShim')
+            gfpx_mod = mods.get('mpyc.gfpx')
+            if gfpx_mod is not None and hasattr(ff, 'ExtensionFieldElement'):
+                ff.ExtensionFieldElement._mix_types = (symx.IntShim, gfpx_mod.Polynomial)
+                ff.BinaryFieldElement._mix_types = (symx.IntShim, gfpx_mod.BinaryPolynomial)
+                env.shims.add('ExtensionFieldElement._mix_types=(IntShim, Polynomial)')
             orig_rec = ff.PrimeFieldElement._reciprocal.__func__
 
             def _reciprocal(cls, a, _orig=orig_rec):
@@ -121,7 +126,17 @@ def install(env, mods, pid=0, table=None, prf_stub=True, rand_stub=True, keytag=
 
                 def to_bytes(cls, x, _o=o_to):
                     x = list(x)
-                    if any(isinstance(v, symx.SymInt) for v in x):
+
+                    def issym(v):
+                        if isinstance(v, symx.SymInt):
+                            return True
+                        inner = getattr(v, 'value', None)       # polynomial (extension / binary field element value)
+                        if isinstance(inner, symx.SymInt):
+                            return True
+                        return isinstance(inner, list) and any(isinstance(c, symx.SymInt) for c in inner)
+                    if any(issym(v) for v in x):
+                        # polynomials cross the wire as their integer encoding (each party has its own copy of the polynomial classes)
+                        x = [v if isinstance(v, (symx.SymInt, builtins.int)) else v.__int__() for v in x]
                         tok = Token(b'\xf5SYM' + len(table).to_bytes(8, 'little'))
                         table[bytes(tok)] = (cls, x)
                         return tok
